@@ -24,6 +24,7 @@ ASSUMPTIONS = [
     'updates and removes address live messages; the indexes of a marking round are distinct and inside the recipient list get() currently returns (what Queue._handle_partial_relay computes); get may address any id',
     'uuid4 is steered: the id-allocation loops draw from scripted candidates (collisions with live and removed ids included); mkstemp names are scripted',
     'redis runs come in two variants: announcements left on the list, and consumed by wait() before every load(); ids returned by load()/wait() are compared with == and type identity against what write() returned',
+    'redis: besides the FakeRedis method-level stand-in, the sequences and an overlap stream run through the REAL redis-py client, GeventConnection and ConnectionPool that RedisStorage constructs, against an in-process RESP server (storefakes.RespServer, loopback socket, a few ms latency per command so that up to 40 operations are in flight at once)',
     'redis and the cloud object store are the fakes of harness/vp/storefakes.py (bytes answers like redis-py; metadata conventions of slimta.cloudstorage.aws); pickling is trusted',
     'timestamps are integers (float(timestamp) of redis compares equal)',
 ]
@@ -227,9 +228,19 @@ class Adapter(object):
             self._patch(redismod, 'uuid', self.hub)
             self.clock = Clock()
             self._patch(redismod, 'time', self.clock)
-            self.st = redismod.RedisStorage(prefix='slimta:')
-            self.fake = sf.FakeRedis(gate=gates)
-            self.st.redis = self.fake
+            if self.cfg.get('resp'):
+                # the REAL redis-py client, GeventConnection and ConnectionPool that RedisStorage
+                # builds, talking RESP to an in-process fake server backed by a FakeRedis
+                self.fake = sf.FakeRedis()
+                self.srv = sf.RespServer.shared()
+                self.srv.reset(self.fake, self.cfg.get('latency', 0.0))
+                self.stack.callback(self.srv.quiesce)
+                self.st = redismod.RedisStorage(host='127.0.0.1', port=self.srv.port, prefix='slimta:')
+                self.stack.callback(self.st.redis.connection_pool.disconnect)
+            else:
+                self.st = redismod.RedisStorage(prefix='slimta:')
+                self.fake = sf.FakeRedis(gate=gates)
+                self.st.redis = self.fake
         elif name == 'cloud':
             self.fake = sf.FakeObjectStore(self.hub, gate=gates, aws_like=self.cfg.get('aws_like', True))
             self.mq = sf.FakeMsgQueue(self.cfg.get('fails', ()), gate=gates) if self.cfg.get('mq') else None
@@ -567,7 +578,7 @@ def run_sequences(ctx, seqs, label, judged=True, cfgs=None):
     cfgs = cfgs or {}
     all_seqs = seqs
     for b in BACKENDS:
-        cfg_list = cfgs.get(b) or ([{}, dict(consume=True), dict(orphans=True)] if b == 'redis' else [{}])
+        cfg_list = cfgs.get(b) or ([{}, dict(consume=True), dict(orphans=True), dict(resp=True), dict(resp=True, consume=True)] if b == 'redis' else [{}])
         for ci, cfg in enumerate(cfg_list):
             seqs = all_seqs
             if cfg.get('consume'):
@@ -896,6 +907,84 @@ def stream_interleaved(ctx, n):
                 ad.close()
 
 
+# ---------------------------------- redis: real client, many operations in flight
+def resp_overlap_plan(n):
+    """n messages; per message the operations one greenlet issues, in two phases"""
+    import random
+    rng = random.Random(4000 + n)
+    msgs = []
+    for i in range(n):
+        id = 100 + i
+        rc = tuple(rng.choice(RCPTS) for _ in range(3))
+        env = (rng.choice(SENDERS), rc, rng.choice(CONTENTS))
+        w = ('write', env, 10 + i, (id,), (1, 2))
+        p1 = [('get', id)]
+        for k in range(3):
+            p1 += [('incr', id, (1,)), ('setts', id, 1000 * (k + 1) + i, (1,))]
+        p1 += [('deliv', id, (0, 2), (1,)), ('get', id)]
+        p2 = [('remove', id), ('get', id)] if i % 2 == 0 else [('get', id)]
+        msgs.append((w, p1, p2))
+    return msgs
+
+
+def run_resp_overlap(n, latency=0.002):
+    """returns (per-message results, per-message expected, loads, expected loads, max commands in flight)"""
+    msgs = resp_overlap_plan(n)
+    ad = Adapter('redis', dict(resp=True, latency=latency))
+    try:
+        ref = Ref()
+        got = [[] for _ in msgs]
+        want = [[] for _ in msgs]
+        for j, (w, p1, p2) in enumerate(msgs):
+            got[j].append(ad.do(w)); want[j].append(ref.step(w))
+        loads, wloads = [], []
+
+        def phase(which):
+            def body(j):
+                def run():
+                    for o in msgs[j][which]:
+                        got[j].append(ad.do(o, 'set'))
+                return run
+            gs = [gevent.spawn(body(j)) for j in range(len(msgs))]
+            gevent.joinall(gs)
+            for j in range(len(msgs)):
+                for o in msgs[j][which]:
+                    want[j].append(ref.step(o))
+        phase(1)
+        loads.append(ad.do(('load', 1))); wloads.append(ref.step(('load', 1)))
+        phase(2)
+        loads.append(ad.do(('load', 2))); wloads.append(ref.step(('load', 2)))
+        return msgs, got, want, loads, wloads, ad.srv.max_in_flight
+    finally:
+        ad.close()
+
+
+def stream_resp_overlap(ctx):
+    for n in (1, 3, 12, 40):
+        msgs, got, want, loads, wloads, inflight = run_resp_overlap(n)
+        case = dict(stream='resp-overlap', backend='redis', messages=n)
+        ctx.count('resp-overlap:messages', n)
+        ctx.count('resp-overlap:max-in-flight:%d' % n, inflight)
+        for j in range(n):
+            ctx.evaluated(('resp-overlap', n, j), nontrivial=n > 1)
+            if got[j] != want[j]:
+                k = next(i for i in range(len(want[j])) if got[j][i] != want[j][i])
+                o = ([msgs[j][0]] + msgs[j][1] + msgs[j][2])[k]
+                key = 'c15:overlap-redis-operation-raises' if got[j][k][0] == 'exc' else 'c15:overlap-redis-%s' % o[0]
+                fail(ctx, key, dict(case, message=j, at=k),
+                     'redis (real client), %d messages handled at the same time (%d commands in flight at once): %r '
+                     'on message %d returned %r; the reference store returns %r'
+                     % (n, inflight, (o[0],) + tuple(o[1:3]), j, got[j][k], want[j][k]))
+                break
+        else:
+            if loads != wloads:
+                fail(ctx, 'c15:overlap-redis-final', case,
+                     'redis (real client), %d messages: load() after the overlapped operations returned %r, expected %r'
+                     % (n, loads, wloads))
+        if n > 1 and inflight < min(n, 3):
+            ctx.mismatch('resp-overlap-not-overlapping', case, inflight, n)
+
+
 # ------------------------------------------------------------------------ run
 def run(ctx):
     q = ctx.quick
@@ -911,6 +1000,9 @@ def run(ctx):
         nr = stream_rounds(ctx, 3 if q else 4)
     with sf.FdGuard('c15 interleaved'):
         stream_interleaved(ctx, 60 if q else 1500)
+    with sf.FdGuard('c15 redis real client overlap'):
+        stream_resp_overlap(ctx)
+    sf.RespServer.stop_shared()
     ctx.note('file descriptors: at most %d open at a time during the run (every stream is checked for leaks)' % sf.FdGuard.peak)
     ctx.extra['rule'] = (
         'random: well-formed single-round operation sequences (2-14 ops + load/get tail) over up to ~4 messages, uuid '
@@ -948,6 +1040,15 @@ def replay(ctx, case):
                 print(o[0], o[1:3], '->', ad.do(o, form), ' reference:', ref.step(o))
         finally:
             ad.close()
+    elif c.get('stream') == 'resp-overlap':
+        msgs, got, want, loads, wloads, inflight = run_resp_overlap(c['messages'])
+        print('%d messages, at most %d commands in flight at once' % (c['messages'], inflight))
+        for j in range(len(msgs)):
+            ops = [msgs[j][0]] + msgs[j][1] + msgs[j][2]
+            for o, g, w in zip(ops, got[j], want[j]):
+                if g != w:
+                    print('message %d: %s %r -> %r   reference: %r' % (j, o[0], o[1:3], g, w))
+        print('load ->', loads); print('reference load ->', wloads)
     elif c.get('stream') == 'interleaved':
         def tup(o):
             return tuple(tup(x) if isinstance(x, list) else (bytes.fromhex(x['hex']) if isinstance(x, dict) and 'hex' in x else x) for x in o)
